@@ -8,7 +8,7 @@ MUST_ENTER = [('a5/math/vec3.py', 'tripleProduct'), ('a5/math/vec3.py', 'vectorD
               ('a5/math/vec3.py', 'slerp'), ('a5/geometry/spherical_polygon.py', 'get_triangle_area'), ('a5/core/cell.py', 'lonlat_to_cell')]
 RULE = ('(i) systematic preemption injection (sys.monitoring, context bound 2): for ordered pairs (A, B) of concrete calls from a catalogue '
         'covering all 13 public functions (geometric calls on several faces, a pole, the antimeridian, low and high resolution), B is run '
-        'to completion inside the k-th LINE event of A; quick: up to 800 injection points per geometric pair (exhaustive when A has fewer '
+        'to completion inside the k-th LINE event of A; quick: up to 600 injection points per geometric pair (exhaustive when A has fewer '
         'events, strided with a seed-dependent offset otherwise) and 40 per other pair; thorough: exhaustive for every pair. INSTRUCTION-level '
         'injection inside vec3 / spherical_polygon / spherical_triangle / polyhedral / dodecahedron / pentagon / vec2 / quat code objects '
         '(strided quick, exhaustive thorough); bounded-cache eviction windows (containers that stop growing under 6k-20k distinct calls are filled exactly to capacity with the entries of A as the oldest, B inserts a new entry at every event of A); cold-start schedules: all shared containers rewound to their import-time contents before A, B '
@@ -108,7 +108,7 @@ def plan(tier, seed):
     other_pairs = [(a, b) for a in allnames for b in allnames if not (a in GEO and b in GEO)]
     nsh = 12 if tier == 'quick' else 32
     for i in range(nsh):
-        specs.append({'part': 'inject', 'pairs': geo_pairs[i::nsh], 'cap': 800 if tier == 'quick' else 0, 'mode': 'line'})
+        specs.append({'part': 'inject', 'pairs': geo_pairs[i::nsh], 'cap': 600 if tier == 'quick' else 0, 'mode': 'line'})
     nso = 6 if tier == 'quick' else 10
     for i in range(nso):
         specs.append({'part': 'inject', 'pairs': other_pairs[i::nso], 'cap': 40 if tier == 'quick' else 0, 'mode': 'line'})
